@@ -13,13 +13,15 @@ FUEL = 400
 def env_words(env):
     hx = lambda s: s.encode().hex() or '-'
     return ' '.join([str(env['amount']), str(env['balance']), str(env['now']), str(env['level']),
-                     hx(env['sender']), hx(env['source']), hx(env['self']), hx(env['chain_id'])])
+                     hx(env['sender']), hx(env['source']), hx(env['self']), hx(env['chain_id']),
+                     str(env.get('total_voting_power', 0)), str(env.get('min_block_time', 1))])
 
 
 def gen_env(rng):
     return {'amount': rng.choice([0, 1, 10**6, 2**62]), 'balance': rng.choice([0, 5, 10**9]), 'now': rng.choice([0, 1, 1700000000, -5]),
             'level': rng.choice([1, 2, 10**7]), 'sender': rng.choice(gen_interp.ADDRS), 'source': rng.choice(gen_interp.ADDRS[:1] + gen_interp.ADDRS[2:4]),
-            'self': rng.choice(gen_interp.ADDRS[1:2] + gen_interp.ADDRS[4:]), 'chain_id': rng.choice(gen_interp.CHAINS)}
+            'self': rng.choice(gen_interp.ADDRS[1:2] + gen_interp.ADDRS[4:]), 'chain_id': rng.choice(gen_interp.CHAINS),
+            'total_voting_power': rng.choice([0, 1, 500, 10**12]), 'min_block_time': rng.choice([1, 8, 15, 30])}
 
 
 def parse_model(out):
@@ -98,7 +100,18 @@ def run(ctx, prop=PROP):
         lines.append('spec ' + line)
         lines.append('specg ' + line)
         lines.append('type ' + line)
+    hash_cases = hash_stream(ctx.rng, ctx.tier) if prop == 'C01' else []
+    n_prog_lines = len(lines)
+    lines += [f'hash {algo} {msg.hex() or "-"}' for algo, msg in hash_cases]
     model = ctx.model(lines, driver=prop)
+    if model is not None:
+        # the executable Lean hash functions the driver plugs into the model against hashlib / pytezos' own helpers
+        for (algo, msg), got in zip(hash_cases, model[n_prog_lines:]):
+            want = real_hash(algo, msg).hex()
+            ctx.count('hash-cross-check', algo)
+            if got != want:
+                ctx.mismatch('hash-functions', {'algo': algo, 'message': msg.hex()}, want, got)
+        model = model[:n_prog_lines]
     ctx.extra['instruction_mix'] = dict(sorted(g.used.items()))
     ctx.extra['boundary_shapes'] = dict(sorted(g.shapes.items()))
     n_shrunk = 0
@@ -174,6 +187,35 @@ def run(ctx, prop=PROP):
                     ctx.violation('type-differs:' + mich.to_line(code)[:120], f'runtime types {got} expected {want}', {'code': code, 'env': env})
             if real[0] == 'err' and prop == 'C01' and 'overflow' not in str(real[1]) and 'natural' not in str(real[1]):
                 ctx.violation('wellTyped-program-errors:' + mich.to_line(code)[:120], f'well-typed program fails with {real[1]}', {'code': code, 'env': env})
+
+
+HASHES = ['blake2b', 'sha256', 'sha512', 'keccak', 'sha3']
+
+
+def real_hash(algo, msg):
+    """what the instruction classes of pytezos call"""
+    import hashlib
+    from pytezos.crypto.keccak import Keccak256
+    from pytezos.crypto.key import blake2b_32
+    if algo == 'blake2b':
+        return blake2b_32(msg).digest()
+    if algo == 'keccak':
+        return Keccak256(msg).digest()
+    return {'sha256': hashlib.sha256, 'sha512': hashlib.sha512, 'sha3': hashlib.sha3_256}[algo](msg).digest()
+
+
+def hash_stream(rng, tier):
+    """messages of every length around the block boundaries of the five functions, plus random ones"""
+    lengths = [0, 1, 2, 3, 31, 32, 33, 55, 56, 57, 63, 64, 65, 111, 112, 113, 119, 120, 127, 128, 129, 135, 136, 137, 143, 144,
+               255, 256, 257, 271, 272, 273, 300]
+    lengths += [rng.randrange(0, 600) for _ in range(10 if tier == 'quick' else 200)]
+    cases = []
+    for n in lengths:
+        kind = rng.randrange(3)
+        msg = rng.bytes_(n) if kind else bytes([rng.choice([0, 0xff, 0x80])] * n)
+        for algo in HASHES:
+            cases.append((algo, msg))
+    return cases
 
 
 def raising(msg):
